@@ -10,12 +10,14 @@ PROP = 'C10'
 TITLE = 'PDA normal forms and PDA -> CFG'
 SHARDS = {'quick': 16, 'thorough': 32}
 TIMEOUT = {'quick': 900, 'thorough': 3600}
-REQUIRED = ['pda_to_one_accepting_state_in_place', 'pda_to_push_pop', 'pda_to_accept_on_empty_stack', 'pda_to_cfg']
+REQUIRED = ['pda_to_one_accepting_state_in_place', 'pda_to_push_pop', 'pda_to_accept_on_empty_stack', 'pda_to_cfg', 'pda_to_cfg(accepts_on_empty_stack=True)']
 EXHAUSTIVE_NOTE = 'no complete sub-space: PDAs are sampled (seeded random + named families + shipped examples)'
 RULE = ('cases are PDAs: seeded random (<=4 states, <=2 input, <=3 stack symbols, <=8 moves of kinds push/pop/replace/no-op, 0..3 accepting states), named families '
         '(acceptance with symbols left on the stack, several/no accepting states with outgoing moves, replace and no-op moves, stack alphabets containing $, all of $@#*&!?, '
         'the symbol the push/pop construction wants, helper state names), the shipped PDAs, random state renamings. Languages are compared on ALL words up to n '
         '(4 quick / 5 thorough) with EXACT references on both sides (PDA saturation oracle; CFG fixpoint oracle for the grammar) - bounded, as the property states. '
+        'pda_to_cfg is also called with accepts_on_empty_stack=True on every PDA whose language by final state equals, on all words up to n, its language by final state AND empty stack '
+        '(both decided exactly by saturation; the second oracle is cross-checked against a bounded BFS), plus a family of PDAs that accept on empty stack by construction. '
         'distinct = the PDA; non-trivial = it has a stack-touching move and a language up to n that is neither empty nor everything')
 ASSUMPTIONS = [
     'PDA languages by the exact saturation oracle, grammar language by the fixpoint oracle; comparison bounded to words of length <= n',
@@ -149,7 +151,7 @@ def post_pda_to_cfg(P, accepts_on_empty_stack, result, OLD):
     from gambatools.cfg import CFG
     if adapt.pda_ref(P) != OLD.pre:
         rec.violation(name + ':input_changed', 'pda_to_cfg changed its argument')
-    if accepts_on_empty_stack:
+    if accepts_on_empty_stack and not _FLAG_IN_DOMAIN.get('ok'):
         return True
     if not isinstance(result, CFG):
         rec.violation(name + ':not_a_cfg', 'pda_to_cfg returned %r' % (result,))
@@ -160,11 +162,58 @@ def post_pda_to_cfg(P, accepts_on_empty_stack, result, OLD):
         return True
     L0 = lang(OLD.pre)
     L1 = cf.language_upto(RG, _N)
+    if accepts_on_empty_stack:
+        rec.ev('pda_to_cfg(accepts_on_empty_stack=True)')
     if L0 != L1:
         extra = sorted(L1 - L0, key=lambda w: (len(w), w))[:3]
         missing = sorted(L0 - L1, key=lambda w: (len(w), w))[:3]
-        rec.violation(name + ':language_differs', 'the grammar built from a PDA generates a different language', pda=OLD.pre, extra=extra, missing=missing)
+        rec.violation(name + ':language_differs' + (':accepts_on_empty_stack' if accepts_on_empty_stack else ''), 'the grammar built from a PDA generates a different language',
+                      pda=OLD.pre, extra=extra, missing=missing, accepts_on_empty_stack=bool(accepts_on_empty_stack))
     return True
+
+
+# set by check_case around a call with accepts_on_empty_stack=True: the operand is inside the flag's domain (on all words up to
+# the bound its language by final state equals its language by final state AND empty stack)
+_FLAG_IN_DOMAIN = {}
+
+
+def empty_stack_bfs(RP, w, cap=6, max_configs=20000):
+    """independent bounded search: True if a configuration (final state, whole word read, EMPTY stack) is reachable with stack
+    height <= cap; None if not found within the bounds"""
+    from collections import deque
+    Q, Sigma, Gamma, T, q0, F = RP
+    by = {}
+    for m in T:
+        by.setdefault(m[0], []).append(m)
+    start = (q0, 0, ())
+    seen = {start}
+    dq = deque([start])
+    n = len(w)
+    while dq and len(seen) < max_configs:
+        (p, i, st) = dq.popleft()
+        if i == n and p in set(F) and not st:
+            return True
+        for (_, a, u, q, v) in by.get(p, ()):
+            if a is None:
+                j = i
+            elif i < n and w[i] == a:
+                j = i + 1
+            else:
+                continue
+            s1 = st
+            if u is not None:
+                if not s1 or s1[-1] != u:
+                    continue
+                s1 = s1[:-1]
+            if v is not None:
+                s1 = s1 + (v,)
+            if len(s1) > cap:
+                continue
+            c = (q, j, s1)
+            if c not in seen:
+                seen.add(c)
+                dq.append(c)
+    return None if dq else False
 
 
 def install(rec):
@@ -203,6 +252,24 @@ def check_case(rec, case):
         o = call(getattr(pa, name), o.value)
         if not o.ok:
             report_failure(rec, o, name, pda=RP)
+    # the conversion with accepts_on_empty_stack=True, for operands that do accept on empty stack (on every word up to the bound
+    # acceptance by final state and acceptance by final state AND empty stack coincide; both decided exactly by saturation)
+    Lfe = pd.language_upto_empty_stack(RP, _N)
+    for w in sorted(L | Lfe)[:6]:
+        b = empty_stack_bfs(RP, w)
+        if b is not None:
+            selfcheck(rec, b == (w in Lfe), {'oracle': 'empty-stack acceptance', 'pda': RP, 'word': w, 'saturation': w in Lfe, 'bfs': b})
+    if Lfe == L:
+        rec.counters['accepts_on_empty_stack_in_domain' + ('_with_stack_moves' if has_stack and L else '')] += 1
+        o = call(P)
+        if o.ok:
+            _FLAG_IN_DOMAIN['ok'] = True
+            try:
+                o = call(pa.pda_to_cfg, o.value, True)
+            finally:
+                _FLAG_IN_DOMAIN['ok'] = False
+            if not o.ok:
+                report_failure(rec, o, 'pda_to_cfg', pda=RP, accepts_on_empty_stack=True)
 
 
 def gen_cases(rec, rng, tier):
@@ -228,6 +295,8 @@ def gen_cases(rec, rng, tier):
         RPg = pdag.helper_names_with_gaps(rng, RP)
         if RPg is not None:
             yield {'cls': 'helper_state_names_with_gaps', 'ref': RPg, 'n': n, 'eps': ''}
+        RPe = pdag.empty_stack_acceptor(rng)
+        yield {'cls': 'accepts_on_empty_stack', 'ref': RPe, 'n': n, 'eps': rng.choice(['', '_'])}
         if rng.random() < 0.4:
             names = ['q_accept1', 'q_initial1', 'M1', 'M2', 'q_accept2'][:len(RP[0])]
             rng.shuffle(names)
